@@ -45,14 +45,20 @@ def checksum_first(r, F):
     cks = fn.calls_to(r"serde::Checksummer::checksum64$")
     if len(cks) != 1:
         raise AnchorMissing("deserialize: Checksummer::checksum64 not found exactly once")
-    cmp = tables.find_cmp(fn, lambda f, op: op.place is not None and 5 in backslice(f, op, "prov").args,
-                          lambda f, op: op.place is not None and any(bb == cks[0].idx for bb, _ in backslice(f, op, "prov").calls), "comparison of the expected checksum with the computed one")
     none_edges = []
     for (sb, pl, tm, other) in tables.discr_switches(fn):
         if pl.is_local() and pl.local == 5 and "None" in tm:
             none_edges.append((sb.idx, tm["None"]))
     if not none_edges:
+        # is there a match on something *derived* from the parameter (filter / and_then / a condition)? then verification can be skipped
+        derived = [(sb, pl) for (sb, pl, tm, other) in tables.discr_switches(fn) if "None" in tm and 5 in backslice(fn, pl, "dep").args]
+        if derived:
+            r.fail(fn, "checksum verified whenever one is supplied", "the optional checksum is transformed (filtered / made conditional) before it is tested: for some entries "
+                   "verification is skipped although the caller supplied the checksum, so damaged payload bytes are decoded into a value", ln=derived[0][0].term.ln)
+            return
         raise AnchorMissing("deserialize: match on the optional checksum not found")
+    cmp = tables.find_cmp(fn, lambda f, op: op.place is not None and 5 in backslice(f, op, "prov").args,
+                          lambda f, op: op.place is not None and any(bb == cks[0].idx for bb, _ in backslice(f, op, "prov").calls), "comparison of the expected checksum with the computed one")
     for c, flipped in cmp:
         eq_edge = (c.sw.idx, c.target("eq", flipped))
         ne_t = c.target("lt", flipped)
